@@ -73,6 +73,8 @@ pub static mut KID_STATUS: [c_int; NKID] = [0; NKID];
 pub static mut KIDS_MAY_EXIT: bool = false; // running children may terminate at any syscall
 pub static mut FOREIGN_REAPER: bool = false; // zombies may be reaped by someone else at any syscall
 pub static mut WAITPID_CALLS: u32 = 0;
+/// a waitpid of this Popen was answered ECHILD (child reaped by someone else)
+pub static mut ECHILD_SEEN: bool = false;
 pub static mut WAITPID_BLOCKING_CALLS: u32 = 0;
 pub static mut KILL_CALLS: u32 = 0;
 pub static mut LAST_KILL_PID: pid_t = 0;
@@ -95,6 +97,7 @@ pub unsafe fn reset() {
     KIDS_MAY_EXIT = false;
     FOREIGN_REAPER = false;
     WAITPID_CALLS = 0;
+    ECHILD_SEEN = false;
     WAITPID_BLOCKING_CALLS = 0;
     KILL_CALLS = 0;
     KILL_RESULT_ERRNO = 0;
@@ -733,7 +736,10 @@ pub unsafe extern "C" fn waitpid(pid: pid_t, status: *mut c_int, flags: c_int) -
     };
     vcheck!(C09, !KIDS[k].reaped_by_us, "C09/no-wait-after-reap: waitpid issued for a child this Popen already reaped");
     match KIDS[k].st {
-        KidSt::Reaped => fail(libc::ECHILD),
+        KidSt::Reaped => {
+            ECHILD_SEEN = true;
+            fail(libc::ECHILD)
+        }
         KidSt::Running => {
             if flags & libc::WNOHANG != 0 {
                 return 0;
@@ -771,6 +777,7 @@ pub unsafe extern "C" fn kill(pid: pid_t, sig: c_int) -> c_int {
     match kid_index(pid) {
         Some(k) => {
             vcheck!(C10, !KIDS[k].reaped_by_us, "C10/no-signal-after-reap: kill() issued for a pid this Popen has already reaped");
+            vcheck!(C10, !ECHILD_SEEN, "C10/no-signal-after-foreign-reap-observed: kill() issued although an earlier query found the child reaped by someone else (the pid may have been recycled)");
             if KIDS[k].st == KidSt::Reaped {
                 // reaped by someone else: pid may be recycled -- the statement
                 // only forbids signalling after *we* observed the termination
